@@ -43,6 +43,9 @@ pub struct ProcSc {
     pub mode: ChildMode,
     pub stdout: Fd,
     pub stderr: Fd,
+    /// `Command::color`: 0 not called, 1 Never, 2 Always, 3 Auto
+    #[serde(default)]
+    pub color: u8,
 }
 
 #[derive(Serialize, Deserialize)]
@@ -50,6 +53,8 @@ struct ChildInput {
     spec: CmdSpec,
     argv: Vec<B>,
     mode: ChildMode,
+    #[serde(default)]
+    color: u8,
 }
 
 pub struct ProcSim;
@@ -65,6 +70,12 @@ pub fn child_main() -> ! {
     // restore the default panic behaviour: a panic in clap must be visible as exit code 101
     let _ = std::panic::take_hook();
     let mut cmd = build_cmd(&inp.spec);
+    cmd = match inp.color {
+        1 => cmd.color(clap::ColorChoice::Never),
+        2 => cmd.color(clap::ColorChoice::Always),
+        3 => cmd.color(clap::ColorChoice::Auto),
+        _ => cmd,
+    };
     let full = full_argv(&inp.spec, "prog", &inp.argv);
     match inp.mode {
         ChildMode::GetMatches => {
@@ -304,6 +315,7 @@ impl Engine for ProcSim {
             mode: *rng.pick(&[ChildMode::GetMatches, ChildMode::GetMatches, ChildMode::TryPrintExit, ChildMode::TryExit, ChildMode::PrintHelp, ChildMode::PrintLongHelp]),
             stdout: fd(rng),
             stderr: fd(rng),
+            color: *rng.pick(&[0u8, 0, 1, 1, 2, 3]),
         }
     }
     fn exec(&self, sc: &ProcSc, log: &mut Log) -> Outcome {
@@ -377,7 +389,7 @@ fn exec_proc(sc: &ProcSc, log: &mut Log, out: &mut Outcome) {
             (if help_like { 0 } else { 2 }, help_like, !help_like, format!("{kind:?}"))
         }
     };
-    let input = ChildInput { spec: sc.spec.clone(), argv: sc.argv.clone(), mode: sc.mode };
+    let input = ChildInput { spec: sc.spec.clone(), argv: sc.argv.clone(), mode: sc.mode, color: sc.color };
     let configs: Vec<(Fd, Fd)> = if (sc.stdout, sc.stderr) == (Fd::Capture, Fd::Capture) { vec![(Fd::Capture, Fd::Capture)] } else { vec![(Fd::Capture, Fd::Capture), (sc.stdout, sc.stderr)] };
     for (so, se) in configs {
         out.steps += 1;
